@@ -10,6 +10,7 @@ import (
 
 	"github.com/thomasjungblut/go-sstables/simpledb"
 	"verif/internal/core"
+	"verif/internal/sess"
 )
 
 // C17: a SimpleDB call that returns an error has no effect; string and byte APIs agree.
@@ -32,6 +33,7 @@ type c17Case struct {
 	Len    int       `json:"len"`
 	Small  bool      `json:"small,omitempty"` // reduced alphabet
 	Only   []c17Call `json:"only,omitempty"`
+	Crash  *c02Case  `json:"crash,omitempty"`
 }
 
 func c17Keys() [][]byte {
@@ -85,8 +87,45 @@ func (c c17) Run(ctx *core.Ctx) error {
 	return c17CrashHalf(ctx)
 }
 
-var c17CrashHalf = func(ctx *core.Ctx) error {
-	ctx.Ev.Notes = append(ctx.Ev.Notes, "crash-image observation not run in this build")
+// c17CrashHalf: the fourth observation point - crash images taken at every system-call boundary of sessions
+// that contain a rejected call, recovered by a fresh process (same tracer and oracle as C02: a call that
+// returned an error is neither acknowledged nor in flight, so it must have no effect on any image).
+func c17CrashHalf(ctx *core.Ctx) error {
+	bad := []sess.Op{
+		{Op: "putbytes", KNil: true, V: "v"},
+		{Op: "putbytes", K: "", V: "v"},
+		{Op: "putbytes", K: "a", VNil: true},
+		{Op: "putbytes", K: "a", V: ""},
+		{Op: "put", K: "", V: "v"},
+		{Op: "put", K: "a", V: ""},
+	}
+	var cases []json.RawMessage
+	for _, mem := range []uint64{90, 1 << 30} {
+		cfg := sess.Cfg{Mem: mem, Thresh: 10, Ratio: 0.2, RBuf: 4096, WBuf: 16}
+		for _, b := range bad {
+			for ctxi := 0; ctxi < 3; ctxi++ {
+				var ops []sess.Op
+				if ctxi >= 1 {
+					ops = append(ops, sess.Op{Op: "put", K: "a", V: "I80"})
+				}
+				ops = append(ops, b)
+				if ctxi == 2 {
+					ops = append(ops, sess.Op{Op: "put", K: "b", V: "x"})
+				}
+				ops = append(ops, sess.Op{Op: "close"})
+				cases = append(cases, core.J(c17Case{Crash: &c02Case{Name: "c17-rejected-call", Mode: "sync", Sess: mkDBSession(cfg, ops...)}}))
+			}
+		}
+	}
+	ctx.Ev.Bounds["crash_sessions"] = len(cases)
+	ctx.Ev.Notes = append(ctx.Ev.Notes, "crash observation: 6 rejected calls (nil/empty key or value through either flavour) x {alone, after an accepted put, between two accepted puts} x memstore {90 B, 1 GiB}, run in a traced child; every directory image at a system-call boundary is recovered by a fresh process and must read as the reference without the rejected call")
+	rs := ctx.Pmap(cases)
+	ctx.Fold(rs, cases)
+	for i, r := range rs {
+		if r.Died {
+			ctx.Report(core.Violation{Desc: "worker died: " + r.DiedMsg, Case: cases[i]})
+		}
+	}
 	return nil
 }
 
@@ -105,6 +144,16 @@ func c17ProgStr(p []c17Call) string {
 func (c c17) Case(w *core.WCtx, payload json.RawMessage) core.Result {
 	var cs c17Case
 	json.Unmarshal(payload, &cs)
+	if cs.Crash != nil {
+		res := c02{"C02"}.Case(w, core.J(cs.Crash))
+		for i := range res.Viol {
+			if strings.HasPrefix(res.Viol[i].Sig, "open-fails") {
+				res.Viol[i].Sig = "D8-putbytes-unvalidated"
+			}
+			res.Viol[i].Case = core.J(c17Case{Crash: cs.Crash})
+		}
+		return res
+	}
 	var r core.Result
 	quietLogs()
 	var progs [][]c17Call
